@@ -6,6 +6,8 @@
      10  the call returned neither a tree (value) nor an error, or both a nil tree and no error
      11  an error of the returned list carries no usable range (start after end, or negative)
      12  err != nil although the error list is empty (or err is not a *ParseError)
+     13  parser state leaked: what Parse returns for a text B depends on a complete text A in front of it
+         (the tree / error list is then not a function of the constructs in the input)
      99  (set by the harness) panic, or no answer within the time bound *)
 From Coq Require Import List NArith ZArith Bool.
 Import ListNotations.
@@ -23,8 +25,13 @@ Inductive case :=
 | CEntry (which : N) (input : list N) (nums : list str) (impl : option tree) (impl_err : bool)
     (* which = 1 ParseKey (impl = a TKey with only a path), 2 ParseMapKey, 3 ParseValue; input as runes;
        impl = the returned node, impl_err = an error was returned *)
-| CSearch (len nodes : N) (tree_ok err_nonnil err_is_parse_error : bool) (errs : list (pos * pos)).
+| CSearch (len nodes : N) (tree_ok err_nonnil err_is_parse_error : bool) (errs : list (pos * pos))
     (* whole parser, any bytes: only the property clauses *)
+| CState (tail alone : list N).
+    (* parser state does not leak across file-level nodes: for a text A that is complete in itself (stray
+       closers, closed constructs; ends with a blank line) and any text B, the nodes and the number of errors
+       that Parse(A ++ B) reports behind those of A are the ones Parse(B) reports.  tail / alone = canonical
+       rendering (node types, values, flags, error count; no ranges) of the two sides *)
 
 Definition pair_eqb (a b : N * str) : bool := (fst a =? fst b) && str_eqb (snd a) (snd b).
 
@@ -100,4 +107,5 @@ Definition check_case (c : case) : list N :=
       flag tree_ok 10
       ++ flag (forallb err_ok errs) 11
       ++ flag (Bool.eqb err_nonnil (match errs with [] => false | _ => true end) && (negb err_nonnil || err_is_pe)) 12
+  | CState tail alone => flag (str_eqb tail alone) 13
   end.
